@@ -304,13 +304,7 @@ fn compile_half(ctx: &mut CaseCtx) {
                 let sig = json!({"phase": "compile", "kind": "panic", "site": panic_site(&pr)});
                 if !ctx.violations.iter().any(|v| v.sig == sig) {
                     let what = format!("compile panicked: {} at {}", pr.msg, panic_site(&pr));
-                    ctx.pre_violation(&sig, &what, &json!({"module": module_json(&m2), "faults": Faults::default()}));
-                    ctx.progress("minimise");
-                    let mm = shrink_any(&m2, 150, |cand| match compile_module(cand) {
-                        Compiled::Panic(p2) => panic_site(&p2) == panic_site(&pr),
-                        _ => false,
-                    });
-                    ctx.violation(sig, what, json!({"module": module_json(&mm), "faults": Faults::default(), "compile_only": true}));
+                    ctx.violation(sig, what, json!({"module": module_json(&m2), "faults": Faults::default(), "compile_only": true}));
                 }
             }
         }
@@ -398,21 +392,26 @@ impl Check for C04 {
         }
         let found = examine_program(ctx, &m, None);
         for (sig, what, f) in found {
-            ctx.pre_violation(&sig, &what, &json!({"module": module_json(&m), "faults": f}));
-            ctx.progress("minimise");
-            let mm = if ctx.violations.len() < 2 && std::env::var_os("CAOSIM_NO_SHRINK").is_none() {
-                let sig2 = sig.clone();
-                let f2 = f.clone();
-                shrink_module(&m, 60, |cand| {
-                    let mut c2 = CaseCtx::new("C04", 0, 0, Tier::Quick);
-                    c2.progress_enabled = false;
-                    examine_program(&mut c2, cand, Some(&f2)).iter().any(|(s, _, _)| s == &sig2)
-                })
-            } else {
-                m.clone()
-            };
-            ctx.violation(sig, what, json!({"module": module_json(&mm), "faults": f, "cards": count_cards(&mm)}));
+            ctx.violation(sig, what, json!({"module": module_json(&m), "faults": f, "cards": count_cards(&m)}));
         }
+    }
+    fn minimise(&self, replay: &Json, sig: &Json) -> Json {
+        let Some(m) = replay.get("module").and_then(module_from_json) else { return replay.clone() };
+        let f: Faults = replay.get("faults").and_then(|f| serde_json::from_value(f.clone()).ok()).unwrap_or_default();
+        if replay.get("compile_only").and_then(|b| b.as_bool()) == Some(true) {
+            let site = sig.get("site").and_then(|s| s.as_str()).unwrap_or("").to_string();
+            let mm = shrink_any(&m, 150, |cand| match compile_module(cand) {
+                Compiled::Panic(p2) => panic_site(&p2) == site,
+                _ => false,
+            });
+            return json!({"module": module_json(&mm), "faults": f, "compile_only": true});
+        }
+        let mm = shrink_module(&m, 60, |cand| {
+            let mut c2 = CaseCtx::new("C04", 0, 0, Tier::Quick);
+            c2.progress_enabled = false;
+            examine_program(&mut c2, cand, Some(&f)).iter().any(|(s, _, _)| s == sig)
+        });
+        json!({"module": module_json(&mm), "faults": f, "cards": count_cards(&mm)})
     }
     fn replay(&self, replay: &Json, ctx: &mut CaseCtx) {
         let Some(m) = replay.get("module").and_then(module_from_json) else { return };
